@@ -34,6 +34,9 @@ func (g *genCtx) onlineConn(ci int, frames *[]SentFrame) *Actor {
 }
 
 func (g *genCtx) timeoutNs() int64 {
+	if g.r.chance(12) {
+		return 0 // the zero value: the library's default of 3 s
+	}
 	switch g.r.intn(5) {
 	case 0:
 		return int64(time.Duration(1+g.r.intn(20)) * time.Millisecond)
@@ -77,8 +80,11 @@ func (g *genCtx) genCalls(o callsOpts) {
 		if sameTimeout != 0 {
 			to = sameTimeout
 		}
-		if to > maxT {
-			maxT = to
+		if eff := to; eff > maxT || (eff == 0 && maxT < int64(3*time.Second)) {
+			if eff == 0 {
+				eff = int64(3 * time.Second)
+			}
+			maxT = eff
 		}
 		ca := &Actor{Name: fmt.Sprintf("call%d", k), Conn: -1}
 		op := Op{K: "call", Call: &CallSpec{Key: ref.PhoneDigits(p.Conns[ci].Phone), Cmd: cmd, Body: body, Timeout: to},
@@ -100,6 +106,9 @@ func (g *genCtx) genCalls(o callsOpts) {
 		for i := 0; i < n; i++ {
 			kind := o.reactKinds[g.r.intn(len(o.reactKinds))]
 			re := Reaction{Kind: kind}
+			if g.r.chance(50) {
+				re.Var = 1 + g.r.intn(1000) // a response body with content (parameter lists, id lists)
+			}
 			switch kind {
 			case "late":
 				re.Delay = maxT + int64(time.Duration(1+g.r.intn(2000))*time.Millisecond)
@@ -194,6 +203,9 @@ func collectCalls(r *Result) []*callInfo {
 		e := r.Hist[i]
 		switch e.K {
 		case KCall:
+			if e.D == 0 {
+				e.D = int64(3 * time.Second) // OverTimeDuration 0 is the documented "default of 3 s"
+			}
 			ci := &callInfo{n: e.N, call: e, cmdConn: -1}
 			out = append(out, ci)
 			byN[e.N] = ci
